@@ -1,10 +1,13 @@
 import GoawkModel.Basic
 import GoawkModel.C15
+import GoawkModel.C15Wait
 /-!
 Line-protocol handler for property C15.
 
 `loop <P>` (N = Generated.Consts.checkContextOps) / `loop <N> <P>`  — the loop shape cancelled in iteration P with poll interval N: answers `err <ticks> <ticksAfter> <at>`
 `pre <N> <ticksEvery> <len>` — a pre-cancelled context on a trace of `len` dispatches with a tick every `ticksEvery`: `err <ticks> <at>` / `fin <ticks>`
+`wait <none|yields|blocked> <d> <orphan 0|1> <started 0|1> <tau>` — `print; <wait for a 21 s command>; while (1) tick()` under a context that is done at `tau` ms
+(started 0: the context was already done when the command was to be started): `stuck <dispatch>` / `err <clock> <after>` / `fin <clock> <after>`
 -/
 namespace GoawkModel.Drv.C15
 open GoawkModel GoawkModel.C15
@@ -35,6 +38,27 @@ def handle (args : List String) : String :=
     match n.toNat?, p.toNat?, iters.toNat? with
     | some n, some p, some iters => render (run n none (loopTrace p iters) 0 0 ⟨0, 0⟩)
     | _, _, _ => "bad-request"
+  | ["wait", copy, d, orphan, started, tau] =>
+    match d.toNat?, tau.toNat? with
+    | some d, some tau =>
+      let cp : Option StdinCopy := match copy with
+        | "none" => some .none
+        | "yields" => some (.yieldsAfter d)
+        | "blocked" => some .blocked
+        | _ => none
+      match cp with
+      | none => "bad-request"
+      | some cp =>
+        let n := GoawkModel.Generated.Consts.checkContextOps
+        let w : Cmd := ⟨some 21000, cp, orphan == "1"⟩
+        -- a command that is not started is a wait under a context that is done from the beginning
+        let τ := if started == "1" then tau else 0
+        let trace : List Step := [.d .plain, .d .plain, .wait w] ++ List.replicate (2 * n) (.d .tick)
+        match runW n none (some τ) trace 0 0 0 0 ⟨0, 0⟩ with
+        | .stuck i => s!"stuck {i}"
+        | .ctxErr _ clk a _ => s!"err {clk} {a}"
+        | .finished clk a _ => s!"fin {clk} {a}"
+    | _, _ => "bad-request"
   | _ => "bad-request"
 
 end GoawkModel.Drv.C15
